@@ -1168,3 +1168,162 @@ def r08_6(ctx):
     extra = sorted(short(w) for w in writers - allowed)
     ctx.check(not extra and len(writers & allowed) >= 5, R, 'draw_target::DrawTarget|writers of the cursor fields', '-', 'only the path ops and apply_path write current_point / first_point',
               'current_point / first_point are also written by %s (or the path ops no longer write them): the protocol analysis does not cover those writers' % extra)
+
+
+def fixed_eval(ctx, b, t, SS, shift_leaves):
+    """a fixed-point integer term as a polynomial over its inputs, reading shifts as exact scalings (rounding is not
+    modelled): `a << k` = a*2^k, `a >> k` = a*2^-k, and for the subdivision exponent S (any term in `shift_leaves`, or
+    S +/- c) `a >> S` = a*H with H = 2^-S one opaque leaf ('H',), `1 << S` = 1/H written as the leaf ('N',).  The unit
+    conversions are expanded by their definitions (whose forms R01.6 checks)."""
+    from fractions import Fraction
+    H, N = Poly.leaf(('H',)), Poly.leaf(('N',))
+
+    def amount(k):
+        """(is_S, c): the shift amount is S + c or the constant c"""
+        pk = poly(k)
+        cv = pk.const_value()
+        if cv is not None:
+            return False, int(cv)
+        for sl in shift_leaves:
+            d = pk - poly(sl)
+            if d.const_value() is not None:
+                return True, int(d.const_value())
+        return None, None
+
+    def ev(t):
+        t = strip_casts(t, ('IntToInt',))
+        t = strip_all(t) if t[0] in ('ref', 'copy') else t
+        if t[0] == 'bin' and t[1] in ('Add', 'Sub', 'Mul'):
+            a, c = ev(t[2]), ev(t[3])
+            return a + c if t[1] == 'Add' else (a - c if t[1] == 'Sub' else a * c)
+        if t[0] == 'ovf' and t[1] in ('Add', 'Sub', 'Mul'):
+            a, c = ev(t[2]), ev(t[3])
+            return a + c if t[1] == 'Add' else (a - c if t[1] == 'Sub' else a * c)
+        if t[0] == 'field' and t[1][0] == 'ovf':
+            return ev(t[1])
+        if t[0] == 'bin' and t[1] in ('Shl', 'Shr'):
+            isS, c = amount(t[3])
+            if isS is None:
+                return Poly.leaf(nosite(t))
+            a = ev(t[2])
+            if t[1] == 'Shl':
+                f = Poly.const(Fraction(2) ** c)
+                return a * f * (N if isS else Poly.const(1))
+            f = Poly.const(Fraction(1, 2) ** c) if c >= 0 else Poly.const(Fraction(2) ** (-c))
+            return a * f * (H if isS else Poly.const(1))
+        if is_call(t, 'rasterizer::dot2_to_dot16') and len(t[2]) == 1:
+            return ev(t[2][0]) * Poly.const(1 << (16 - SS))
+        if is_call(t, 'rasterizer::dot16_to_dot2') and len(t[2]) == 1:
+            return ev(t[2][0]) * Poly.const(Fraction(1, 1 << (16 - SS)))
+        cv = poly(t).const_value()
+        if cv is not None:
+            return Poly.const(cv)
+        return Poly.leaf(nosite(t))
+    return ev(t)
+
+
+def r08_7(ctx):
+    """forward differencing of a quadratic edge is set up for the curve it was given.  With n = 2^S steps of h = 1/n,
+    B(t) = p1 + 2t(c - p1) + t^2 (p1 - 2c + p2) has first difference B(h) - B(0) = h(2(c - p1) + h(p1 - 2c + p2)) and
+    constant second difference 2h^2 (p1 - 2c + p2).  add_edge keeps both multiplied by n, in 16.16:
+        dx  = K (2(c - p1) + h (p1 - 2c + p2)),   ddx = K 2h (p1 - 2c + p2),   K = 2^(16 - SAMPLE_SHIFT),
+    takes count = 2^S steps, and the first point after the start is fullx + h dx.  These are polynomial identities in
+    p1, c, p2 and h (shifts read as exact scalings: rounding is not decided); the y half is the x half by R08.5."""
+    R = 'R08.7'
+    SS = const_of(ctx, 'raqote::rasterizer::SAMPLE_SHIFT')
+    b = ctx.body(RAS + 'add_edge', R)
+    an = ctx.an(b)
+    key = 'rasterizer::Rasterizer::add_edge'
+    if not ctx.check(SS is not None, R, key + '|SAMPLE_SHIFT', '-', 'SAMPLE_SHIFT read', 'cannot read SAMPLE_SHIFT (fail closed)'):
+        return
+    first = {}
+    for a, v, pt, kind in an.stores:
+        if kind != 'assign':
+            continue
+        nm = field_path(a)[1][-1:]
+        if nm and nm[0] in ('dx', 'ddx', 'count', 'next_x', 'shift', 'fullx') and nm[0] not in first and pt[0] in an.cfg.reach:
+            # the shift store on the straight-edge path (constant 0) is not the curve's
+            if nm[0] == 'shift' and const_val(v) is not None:
+                continue
+            first[nm[0]] = (a, v, pt)
+    if not ctx.check(all(k2 in first for k2 in ('dx', 'ddx', 'count', 'next_x', 'shift', 'fullx')), R, key + '|stores (positive control)', b.loc(), 'first stores of dx, ddx, count, next_x, shift, fullx found',
+                     'cannot find the first stores of e.dx, e.ddx, e.count, e.next_x, e.shift and e.fullx in add_edge (found %s): fail closed' % sorted(first)):
+        return
+    S = strip_all(first['shift'][1])
+    base = strip_all(first['dx'][0])
+    while base[0] == 'field':
+        base = base[1]
+    def efield(n):
+        return [x for x in (nosite(strip_all(first[n][0])),)]
+    shift_leaves = [S] + [nosite(x) for x in subterms(first['next_x'][1]) if x[0] == 'field' and x[2] == 'shift']
+    ev = lambda t: fixed_eval(ctx, b, t, SS, shift_leaves)
+    H, N = Poly.leaf(('H',)), Poly.leaf(('N',))
+    K = Poly.const(1 << (16 - SS))
+    pdx, pddx = ev(first['dx'][1]), ev(first['ddx'][1])
+    coords = [l for l in pdx.leaves() if l not in (('H',), ('N',))]
+    # p1 is the coordinate the edge starts at: fullx = dot2_to_dot16(p1)
+    pfull = ev(first['fullx'][1])
+    p1s = [l for l in coords if pfull == Poly.leaf(l) * K]
+    ok = len(coords) == 3 and len(p1s) == 1
+    detail = ''
+    if ok:
+        p1 = p1s[0]
+        rest = [l for l in coords if l != p1]
+        found = None
+        for c, p2 in (rest, rest[::-1]):
+            P1, C, P2 = Poly.leaf(p1), Poly.leaf(c), Poly.leaf(p2)
+            A2 = P1 - C - C + P2
+            if pdx == K * (Poly.const(2) * (C - P1) + H * A2):
+                found = (c, p2, A2)
+        ok = found is not None
+        if ok:
+            c, p2, A2 = found
+            # the control coordinate is the one that is neither end of the edge: it comes from the `control` parameter
+            r0, nm0 = field_path(strip_all(c[2][0])) if is_call(c, 'rasterizer::f32_to_dot2') else (None, None)
+            ctx.check(r0 == ('param', 5), R, key + '|control point role', b.loc(), 'the doubled coordinate is the control point',
+                      'the coordinate that enters the differences with weight -2 is %s, not the control point' % fmt(b, c))
+            ctx.check(pddx == K * Poly.const(2) * H * A2, R, key + '|second difference', b.loc(), 'ddx = K*2h*(p1 - 2c + p2)',
+                      'the second forward difference e.ddx is %s, expected 2^%d * 2h * (p1 - 2c + p2) with h = 2^-shift: the curve\'s later segments bend by the wrong amount (the outline leaves the true curve although it starts and ends on it)' % (pddx.show(b)[:200], 16 - SS))
+    ctx.check(ok, R, key + '|first difference', b.loc(), 'dx = K*(2(c - p1) + h*(p1 - 2c + p2))',
+              'the first forward difference e.dx is %s, expected 2^%d * (2(c - p1) + h(p1 - 2c + p2)) with h = 2^-shift over the edge\'s start p1, control c and end p2' % (pdx.show(b)[:240], 16 - SS))
+    # count = 2^S
+    cv = strip_casts(first['count'][1], ('IntToInt',))
+    okc = cv[0] == 'bin' and cv[1] == 'Shl' and const_val(cv[2]) == 1 and nosite(strip_all(cv[3])) in [nosite(x) for x in shift_leaves]
+    ctx.check(okc, R, key + '|step count', b.loc(), 'count = 1 << shift', 'the number of forward-difference steps is %s, expected 1 << shift (h = 2^-shift)' % fmt(b, cv))
+    # first next_x = fullx + h*dx  (read back from the edge)
+    pn = ev(first['next_x'][1])
+    fl = [l for l in pn.leaves() if l[0] == 'field' and l[2] == 'fullx']
+    dl = [l for l in pn.leaves() if l[0] == 'field' and l[2] == 'dx']
+    okn = len(fl) == 1 and len(dl) == 1 and pn == Poly.leaf(fl[0]) + Poly.leaf(dl[0]) * H
+    ctx.check(okn, R, key + '|first step', b.loc(), 'next_x = fullx + h*dx', 'the first interpolated point is %s, expected e.fullx + (e.dx >> shift)' % pn.show(b)[:200])
+    # the advance uses the first difference before it is updated: in add_edge's first step, in its catch-up loop and in
+    # ActiveEdge::step: next_x += dx >> S precedes dx += ddx (same for y)
+    def order_ok(bb, an2, where):
+        res = []
+        st = [(a, v, pt) for a, v, pt, kind in an2.stores if kind == 'assign' and pt[0] in an2.cfg.reach]
+        for ax in ('x', 'y'):
+            adv = [(a, v, pt) for a, v, pt in st if field_path(a)[1][-1:] == ['next_' + ax] and any(x[0] == 'field' and x[2] == 'd' + ax for x in subterms(v))]
+            upd = [(a, v, pt) for a, v, pt in st if field_path(a)[1][-1:] == ['d' + ax] and any(x[0] == 'field' and x[2] == 'dd' + ax for x in subterms(v)) and any(x[0] == 'field' and x[2] == 'd' + ax for x in subterms(v))]
+            for a, v, pt in adv:
+                # the nearest update in the same block chain: one that this advance dominates, with no other advance between
+                after = [u for u in upd if (u[2][0] == pt[0] and u[2][1] > pt[1]) or (u[2][0] != pt[0] and an2.cfg.dominates(pt[0], u[2][0]))]
+                before_same_iter = [u for u in upd if u[2][0] == pt[0] and u[2][1] < pt[1]]
+                res.append((ax, bool(after) and not before_same_iter, pt))
+                # exact forms
+                pv = fixed_eval(ctx, bb, v, SS, [nosite(x) for x in subterms(v) if x[0] == 'field' and x[2] == 'shift'] + shift_leaves)
+                nl = [l for l in pv.leaves() if l[0] == 'field' and l[2] == 'next_' + ax]
+                dl2 = [l for l in pv.leaves() if l[0] == 'field' and l[2] == 'd' + ax]
+                if nl:
+                    res.append((ax, len(nl) == 1 and len(dl2) == 1 and pv == Poly.leaf(nl[0]) + Poly.leaf(dl2[0]) * H, pt))
+            for a, v, pt in upd:
+                pv = poly(v)
+                dl2 = [l for l in pv.leaves() if l[0] == 'field' and l[2] == 'd' + ax]
+                ddl = [l for l in pv.leaves() if l[0] == 'field' and l[2] == 'dd' + ax]
+                res.append((ax, len(dl2) == 1 and len(ddl) == 1 and pv == Poly.leaf(dl2[0]) + Poly.leaf(ddl[0]), pt))
+        return res
+    for q, bb in ((RAS + 'add_edge', b), ('raqote::rasterizer::ActiveEdge::step', ctx.body('raqote::rasterizer::ActiveEdge::step', R))):
+        an2 = ctx.an(bb)
+        res = order_ok(bb, an2, q)
+        n_adv = len(res)
+        ctx.check(n_adv >= 4 and all(r[1] for r in res), R, short(q) + '|advance then update', bb.loc(), '%d advance/update sites: next += d >> shift, then d += dd' % n_adv,
+                  'in %s the forward-difference stepping is not `next_a += da >> shift` followed by `da += dda` at every site (%s): the polyline no longer follows the quadratic' % (short(q), [(r[0], r[1]) for r in res]))
